@@ -176,6 +176,7 @@ bool add_items(metatype &to, const node *head, const relation *relation, logger 
 		// add item to group
 		identifier id;
 		if (!id.set_name(ident, ilen)) {
+			from->unref();
 			if (out) {
 				out->message(_func, out->Error, "%s: %s",
 				             MPT_tr("unable add item"), std::string(ident, ilen).c_str());
